@@ -766,7 +766,7 @@ static void DecodeNorm(Word Index) {
             if (AdrResult.ErgMode == ModInd8) {
                 AdrResult.ErgMode = ModInd16;
             }
-            AdrResult.AdrVals[AdrCnt++] = 0;
+            AdrResult.AdrVals[AdrResult.AdrCnt++] = 0;
         }
         if (pOrder->Codes[AdrResult.ErgMode] == -1) {
             WrError(ErrNum_InvAddrMode);
